@@ -239,15 +239,19 @@ def normS : List Val → List (SortKey × Val)
   | x :: xs => (sortKey x, norm x) :: normS xs
 end
 
+/-- the value whose `str` is handed to md5 by `_tokenize(*args, **kwargs)`:
+    `token = _normalize_seq_func(args)`, and with kwargs `token = token, _normalize_seq_func(sorted(kwargs.items()))`.
+    kwargs keys are strings; `sorted` on `(key, value)` tuples with distinct keys = sort by key. -/
+def tokNFKw (args : List Val) (kwargs : List (String × Val)) : Val :=
+  if kwargs.isEmpty then .tuple (normL args)
+  else
+    let items := ssort (kwargs.map (fun (k, v) => ((k, ""), Val.tuple [.str "tuple", .tuple [.str k, norm v]])))
+    .tuple [.tuple (normL args), .tuple (items.map Prod.snd)]
+
 /-- the string handed to md5 by `_tokenize(*args)` (no kwargs) -/
 def tokPre (args : List Val) : String := pyRepr (.tuple (normL args))
 
-/-- `_tokenize(*args, **kwargs)`: `token = token, _normalize_seq_func(sorted(kwargs.items()))`.
-    kwargs keys are strings; `sorted` on `(key, value)` tuples with distinct keys = sort by key. -/
-def tokPreKw (args : List Val) (kwargs : List (String × Val)) : String :=
-  if kwargs.isEmpty then tokPre args
-  else
-    let items := ssort (kwargs.map (fun (k, v) => ((k, ""), Val.tuple [.str "tuple", .tuple [.str k, norm v]])))
-    pyRepr (.tuple [.tuple (normL args), .tuple (items.map Prod.snd)])
+/-- the string handed to md5 by `_tokenize(*args, **kwargs)` -/
+def tokPreKw (args : List Val) (kwargs : List (String × Val)) : String := pyRepr (tokNFKw args kwargs)
 
 end Dask.NF
